@@ -651,3 +651,11 @@ for _o in OBLIGATIONS:
 _slice(dict([("C08.rook.g%d" % i, i) for i in range(4)] + [("C08.bishop.g%d" % i, i) for i in range(4)]), 4)
 # C10: the two removal operations and clone in three slices
 _slice({"C10.remove.cap6": 0, "C10.remove_move.cap6": 1, "C10.clone.cap6": 2}, 3)
+
+# C08: the chess-lookup crate costs ~5 min of fixed compile / goto processing for the 4 MB tables; drop the per-assertion
+# reachability SAT calls here (the cover and negated-twin guards stay)
+for _o in OBLIGATIONS:
+    if _o["name"].startswith("C08.") and _o.get("flags") == "safety":
+        _o["flags"] = "full"
+_thorough("C08.cover", "C08.negtwin")
+_untag("C03", "C03.pin_info.loop2")
